@@ -101,6 +101,10 @@ def gen(seed, tier="quick"):
         run = {"ops": ops}
         if r.random() < 0.15:
             run["bytecode"] = False  # this process runs with sys.dont_write_bytecode: caches are still READ
+        if r.random() < 0.12:
+            run["disable"] = True  # JAXTYPING_DISABLE=1 in this process: modules are still instrumented, checks are off
+        if r.random() < 0.1:
+            run["env"] = {"SOURCE_DATE_EPOCH": "315532800"}  # reproducible-build environments
         fr = r.random()
         if fr < 0.12:
             run["faults"] = [{"site": "module.body", "k": r.randrange(1, 6), "exc": r.choice(("RuntimeError", "ValueError", "KeyboardInterrupt"))}]
